@@ -37,6 +37,7 @@ func runC01(c *engine.Ctx) {
 	checkHandOverFlags(c, "R13")
 	checkFreshLookup(c, "R14") // shared with C06.R13: a connection is bridged to the listener the registry names now
 	checkMuxPriorities(c, "R15")
+	checkThrowawayBufio(c, "R16") // shared with C16.R22: a read-ahead reader that is dropped swallows the head of the stream
 }
 
 // checkMuxPriorities (R15): on the shared bind port golib's mux asks its sub-listeners in ascending priority and gives
